@@ -5,6 +5,7 @@ import MaestroVerif.Model.Csv
 import MaestroVerif.Model.Lock
 import MaestroVerif.Model.Conductor
 import MaestroVerif.Model.Expand
+import MaestroVerif.Model.Env
 import MaestroVerif.Model.Launcher
 import MaestroVerif.Model.Spec
 import MaestroVerif.Gen.Schema
@@ -318,13 +319,23 @@ def step (st : St) (toks : List String) : St × String :=
     | .ok g =>
       (st, s!"ok insts={";".intercalate (g.insts.map fmtInst)} adj={fmtAssoc g.adj false} deps={fmtAssoc g.deps true}")
   | "subst.env" :: rest =>
-    -- `StudyEnvironment.apply_environment`: labels, then dependencies, then substitutions
-    let item := unhex (kvOf rest "text")
-    let pass (item : List Char) (kvs : List (List Char × List Char)) : List Char :=
-      kvs.foldl (fun s kv => replaceAll s (tok kv.1) kv.2) item
-    let item := if item.isEmpty then item else
-      pass (pass (pass item (pairs (kvOf rest "labels"))) (pairs (kvOf rest "deps"))) (pairs (kvOf rest "vars"))
-    (st, hex item)
+    -- `StudyEnvironment.apply_environment` on an environment given group by group
+    let e : Env.Env := { labels := pairs (kvOf rest "labels"), deps := pairs (kvOf rest "deps"),
+                         subs := pairs (kvOf rest "vars"), registered := true, names := [] }
+    (st, hex (e.apply (unhex (kvOf rest "text"))))
+  | "subst.envadd" :: rest =>
+    -- `StudyEnvironment.add` item by item (`v:name:value:s|n` a Variable with a string / numeric value,
+    -- `d:name:path` a path dependency), then `apply_environment` on the text
+    let items : List Env.Item := ((kvOf rest "items").splitOn ",").filterMap fun p =>
+      match p.splitOn ":" with
+      | ["v", n, v, t] => some (Env.Item.var (unhex n) (unhex v) (t == "s"))
+      | ["d", n, v] => some (Env.Item.dep (unhex n) (unhex v))
+      | _ => none
+    match Env.addAll items with
+    | none => (st, "ValueError")
+    | some e =>
+      let names (l : List (List Char × List Char)) := ",".intercalate (l.map fun kv => hex kv.1)
+      (st, s!"labels={names e.labels} deps={names e.deps} subs={names e.subs} reg={if e.registered then 1 else 0} out={hex (e.apply (unhex (kvOf rest "text")))}")
   | ["subst.replace", s, old, new] => (st, hex (replaceAll (unhex s) (unhex old) (unhex new)))
   | ["subst.findws", s] => (st, ",".intercalate ((usedSpaces (unhex s)).map hex))
   | ["exp.sanitize", s] => (st, hex (sanitize (unhex s)))
